@@ -351,6 +351,11 @@ func (g *Generator) writeUnwrapImports(gf *protogen.GeneratedFile) {
 	gf.P(`"google.golang.org/protobuf/encoding/protojson"`)
 	gf.P(")")
 	gf.P()
+	// protojson is only used for message-typed elements and values: a file whose unwrap fields are all scalar
+	// would otherwise not compile ("imported and not used")
+	gf.P("// Reference imports to suppress errors if they are not otherwise used.")
+	gf.P("var _ = protojson.Marshal")
+	gf.P()
 }
 
 func (g *Generator) generateUnwrapMarshalJSON(gf *protogen.GeneratedFile, containing *UnwrapContainingMessage) {
